@@ -1321,10 +1321,15 @@ func (fc *funcContext) translateImplicitConversion(expr ast.Expr, desiredType ty
 			return fc.formatExpr("new $jsObjectPtr(%e)", expr)
 		}
 		if isWrapped(exprType) {
+			if _, isArray := exprType.Underlying().(*types.Array); isArray {
+				// An interface holds its own copy of an array value.
+				return fc.formatExpr("new %1s($clone(%2e, %1s))", fc.typeName(exprType), expr)
+			}
 			return fc.formatExpr("new %s(%e)", fc.typeName(exprType), expr)
 		}
 		if _, isStruct := exprType.Underlying().(*types.Struct); isStruct {
-			return fc.formatExpr("new %1e.constructor.elem(%1e)", expr)
+			// An interface holds its own copy of a struct value.
+			return fc.formatExpr("new %1s($clone(%2e, %1s))", fc.typeName(exprType), expr)
 		}
 	}
 
